@@ -404,13 +404,14 @@ def events(card, n, rng, classes=True, lab_beta=None):
     return ps
 
 
-def density(config, ps):
-    """the property's observation point: ConfigLoader.data.cal_angle(p4) -> get_amplitude()(data)"""
+def density(config, ps, **extra):
+    """the property's observation point: ConfigLoader.data.cal_angle(p4) -> get_amplitude()(data); extra = per-event columns
+    (e.g. charge_conjugation)"""
     import contextlib
     import io
 
     with contextlib.redirect_stdout(io.StringIO()):
-        data = config.data.cal_angle([np.ascontiguousarray(p) for p in ps])
+        data = config.data.cal_angle([np.ascontiguousarray(p) for p in ps], **extra)
         amp = config.get_amplitude()
         return np.asarray(amp(data)), data
 
